@@ -578,9 +578,15 @@ def chandrupatla(ctx, rep):
                 if isinstance(te, ast.Name) and isinstance(ve, ast.Subscript) and isinstance(ve.value, ast.Name) and ast.dump(ve.slice) == ast.dump(mask):
                     nf2.env[te.id] = ('name', ve.value.id)
         b = nf2.nf(vector_t[0].value)
-        rep.check('D4.scalar', fn, vector_t[0], a == b and a is not None, 'same AC normal form modulo the lane mask',
-                  'the scalar branch and the vector branch compute different interpolation formulas: scalar input does not behave '
-                  'like a one-element vector', construct='interpolation formula')
+        from ..exprnf import nf_refute_equal
+        if a is not None and a == b:
+            rep.ok('D4.scalar', fn, vector_t[0], 'same AC normal form modulo the lane mask', construct='interpolation formula')
+        elif a is not None and b is not None and nf_refute_equal(a, b):
+            rep.bad('D4.scalar', fn, vector_t[0], 'the scalar branch and the vector branch compute different interpolation formulas (their values are disjoint on a common '
+                    'box of the six history values): scalar input does not behave like a one-element vector', construct='interpolation formula')
+        else:
+            rep.undecided('D4.scalar', fn, vector_t[0], 'the scalar and the vector interpolation formulas have different normal forms and no box separates their values',
+                          construct='interpolation formula')
 
 
 def _choices(call):
